@@ -67,6 +67,20 @@ def _repolls(mod, name, depth):
 def check_sleeper_loops(mod, rep, rid, sem_p):
     """every call to a semaphore P lies in a natural loop whose exit condition depends on an atomic load (the wake flag) or on
     values recomputed in the loop (ready times); a return value of P alone never ends the wait"""
+    # the sleeping primitives form a layer (semaphore P, the cancellable wait on top of it): a static helper all of whose callers belong to the
+    # layer is part of it - the loop that re-reads the wake condition is in the layer's callers
+    sem_p = set(sem_p)
+    callers = {}
+    for f in mod.defined.values():
+        for i in f.real_insts():
+            if i.op == 'call' and i.callee:
+                callers.setdefault(i.callee, set()).add(f.name)
+    changed = True
+    while changed:
+        changed = False
+        for f in mod.defined.values():
+            if f.name not in sem_p and f.internal and callers.get(f.name) and callers[f.name] <= sem_p and any(i.op == 'call' and i.callee in sem_p for i in f.real_insts()):
+                sem_p.add(f.name); changed = True
     for fn in mod.defined.values():
         if fn.name in sem_p:
             continue
